@@ -7408,339 +7408,239 @@ let rec build_directives dirs tag attrs s =
            (app (opt_list argument) (opt_list modifiers))))))) :: r'), s1)
      | _ -> build_directives r tag attrs s)
 
-(** val lower_el : env -> node -> st -> node * st **)
+(** val lower_children_with :
+    env -> (node -> st -> node * st) -> node list -> st -> node list * st **)
 
-let lower_el e =
-  let o = e.e_opts in
-  let rec lower_el0 n s =
-    let lower_children =
-      let rec lower_children cs s0 =
-        match cs with
-        | [] -> ([], s0)
-        | c :: r ->
-          (match c with
-           | NScalar _ ->
-             let o0 = [] in
-             let (r', s1) = lower_children r s0 in ((app o0 r'), s1)
-           | NArr _ ->
-             let o0 = [] in
-             let (r', s1) = lower_children r s0 in ((app o0 r'), s1)
-           | NObj _ ->
-             let o0 = [] in
-             let (r', s1) = lower_children r s0 in ((app o0 r'), s1)
-           | Field (_, _) ->
-             let o0 = [] in
-             let (r', s1) = lower_children r s0 in ((app o0 r'), s1)
-           | Ident (_, _, _) ->
-             let o0 = [] in
-             let (r', s1) = lower_children r s0 in ((app o0 r'), s1)
-           | BIdent (_, _, _, _) ->
-             let o0 = [] in
-             let (r', s1) = lower_children r s0 in ((app o0 r'), s1)
-           | IdName _ ->
-             let o0 = [] in
-             let (r', s1) = lower_children r s0 in ((app o0 r'), s1)
-           | Str (_, _) ->
-             let o0 = [] in
-             let (r', s1) = lower_children r s0 in ((app o0 r'), s1)
-           | Num (_, _) ->
-             let o0 = [] in
-             let (r', s1) = lower_children r s0 in ((app o0 r'), s1)
-           | Bool _ ->
-             let o0 = [] in
-             let (r', s1) = lower_children r s0 in ((app o0 r'), s1)
-           | Null ->
-             let o0 = [] in
-             let (r', s1) = lower_children r s0 in ((app o0 r'), s1)
-           | Arr _ ->
-             let o0 = [] in
-             let (r', s1) = lower_children r s0 in ((app o0 r'), s1)
-           | Elem (_, _) ->
-             let o0 = [] in
-             let (r', s1) = lower_children r s0 in ((app o0 r'), s1)
-           | Hole ->
-             let o0 = [] in
-             let (r', s1) = lower_children r s0 in ((app o0 r'), s1)
-           | Obj _ ->
-             let o0 = [] in
-             let (r', s1) = lower_children r s0 in ((app o0 r'), s1)
-           | KV (_, _) ->
-             let o0 = [] in
-             let (r', s1) = lower_children r s0 in ((app o0 r'), s1)
-           | Computed _ ->
-             let o0 = [] in
-             let (r', s1) = lower_children r s0 in ((app o0 r'), s1)
-           | Spread _ ->
-             let o0 = [] in
-             let (r', s1) = lower_children r s0 in ((app o0 r'), s1)
-           | Call (_, _, _, _, _) ->
-             let o0 = [] in
-             let (r', s1) = lower_children r s0 in ((app o0 r'), s1)
-           | Arrow (_, _, _, _, _, _, _) ->
-             let o0 = [] in
-             let (r', s1) = lower_children r s0 in ((app o0 r'), s1)
-           | Assign (_, _, _) ->
-             let o0 = [] in
-             let (r', s1) = lower_children r s0 in ((app o0 r'), s1)
-           | Paren _ ->
-             let o0 = [] in
-             let (r', s1) = lower_children r s0 in ((app o0 r'), s1)
-           | Cond (_, _, _) ->
-             let o0 = [] in
-             let (r', s1) = lower_children r s0 in ((app o0 r'), s1)
-           | Bin (_, _, _) ->
-             let o0 = [] in
-             let (r', s1) = lower_children r s0 in ((app o0 r'), s1)
-           | Unary (_, _) ->
-             let o0 = [] in
-             let (r', s1) = lower_children r s0 in ((app o0 r'), s1)
-           | Member (_, _) ->
-             let o0 = [] in
-             let (r', s1) = lower_children r s0 in ((app o0 r'), s1)
-           | Block (_, _) ->
-             let o0 = [] in
-             let (r', s1) = lower_children r s0 in ((app o0 r'), s1)
-           | JsxE (_, _, _, _, _, _) ->
-             let (x, s1) = lower_el0 c s0 in
-             let o0 = (Elem (false, x)) :: [] in
-             let (r', s2) = lower_children r s1 in ((app o0 r'), s2)
-           | JsxF _ ->
-             let (x, s1) = lower_el0 c s0 in
-             let o0 = (Elem (false, x)) :: [] in
-             let (r', s2) = lower_children r s1 in ((app o0 r'), s2)
-           | JExprC e0 ->
-             (match e0 with
-              | JEmpty ->
-                let o0 = [] in
-                let (r', s1) = lower_children r s0 in ((app o0 r'), s1)
-              | _ ->
-                let o0 = (Elem (false, e0)) :: [] in
-                let s1 = mark_dynamic e e0 s0 in
-                let (r', s2) = lower_children r s1 in ((app o0 r'), s2))
-           | JText (v, _) ->
-             let (t, s1) = transform_jsx_text v s0 in
-             let o0 =
-               match t with
+let rec lower_children_with e rec0 cs s =
+  match cs with
+  | [] -> ([], s)
+  | c :: r ->
+    (match c with
+     | NScalar _ ->
+       let o = [] in
+       let (r', s0) = lower_children_with e rec0 r s in ((app o r'), s0)
+     | NArr _ ->
+       let o = [] in
+       let (r', s0) = lower_children_with e rec0 r s in ((app o r'), s0)
+     | NObj _ ->
+       let o = [] in
+       let (r', s0) = lower_children_with e rec0 r s in ((app o r'), s0)
+     | Field (_, _) ->
+       let o = [] in
+       let (r', s0) = lower_children_with e rec0 r s in ((app o r'), s0)
+     | Ident (_, _, _) ->
+       let o = [] in
+       let (r', s0) = lower_children_with e rec0 r s in ((app o r'), s0)
+     | BIdent (_, _, _, _) ->
+       let o = [] in
+       let (r', s0) = lower_children_with e rec0 r s in ((app o r'), s0)
+     | IdName _ ->
+       let o = [] in
+       let (r', s0) = lower_children_with e rec0 r s in ((app o r'), s0)
+     | Str (_, _) ->
+       let o = [] in
+       let (r', s0) = lower_children_with e rec0 r s in ((app o r'), s0)
+     | Num (_, _) ->
+       let o = [] in
+       let (r', s0) = lower_children_with e rec0 r s in ((app o r'), s0)
+     | Bool _ ->
+       let o = [] in
+       let (r', s0) = lower_children_with e rec0 r s in ((app o r'), s0)
+     | Null ->
+       let o = [] in
+       let (r', s0) = lower_children_with e rec0 r s in ((app o r'), s0)
+     | Arr _ ->
+       let o = [] in
+       let (r', s0) = lower_children_with e rec0 r s in ((app o r'), s0)
+     | Elem (_, _) ->
+       let o = [] in
+       let (r', s0) = lower_children_with e rec0 r s in ((app o r'), s0)
+     | Hole ->
+       let o = [] in
+       let (r', s0) = lower_children_with e rec0 r s in ((app o r'), s0)
+     | Obj _ ->
+       let o = [] in
+       let (r', s0) = lower_children_with e rec0 r s in ((app o r'), s0)
+     | KV (_, _) ->
+       let o = [] in
+       let (r', s0) = lower_children_with e rec0 r s in ((app o r'), s0)
+     | Computed _ ->
+       let o = [] in
+       let (r', s0) = lower_children_with e rec0 r s in ((app o r'), s0)
+     | Spread _ ->
+       let o = [] in
+       let (r', s0) = lower_children_with e rec0 r s in ((app o r'), s0)
+     | Call (_, _, _, _, _) ->
+       let o = [] in
+       let (r', s0) = lower_children_with e rec0 r s in ((app o r'), s0)
+     | Arrow (_, _, _, _, _, _, _) ->
+       let o = [] in
+       let (r', s0) = lower_children_with e rec0 r s in ((app o r'), s0)
+     | Assign (_, _, _) ->
+       let o = [] in
+       let (r', s0) = lower_children_with e rec0 r s in ((app o r'), s0)
+     | Paren _ ->
+       let o = [] in
+       let (r', s0) = lower_children_with e rec0 r s in ((app o r'), s0)
+     | Cond (_, _, _) ->
+       let o = [] in
+       let (r', s0) = lower_children_with e rec0 r s in ((app o r'), s0)
+     | Bin (_, _, _) ->
+       let o = [] in
+       let (r', s0) = lower_children_with e rec0 r s in ((app o r'), s0)
+     | Unary (_, _) ->
+       let o = [] in
+       let (r', s0) = lower_children_with e rec0 r s in ((app o r'), s0)
+     | Member (_, _) ->
+       let o = [] in
+       let (r', s0) = lower_children_with e rec0 r s in ((app o r'), s0)
+     | Block (_, _) ->
+       let o = [] in
+       let (r', s0) = lower_children_with e rec0 r s in ((app o r'), s0)
+     | JsxE (_, _, _, _, _, _) ->
+       let (x, s0) = rec0 c s in
+       let o = (Elem (false, x)) :: [] in
+       let (r', s1) = lower_children_with e rec0 r s0 in ((app o r'), s1)
+     | JsxF _ ->
+       let (x, s0) = rec0 c s in
+       let o = (Elem (false, x)) :: [] in
+       let (r', s1) = lower_children_with e rec0 r s0 in ((app o r'), s1)
+     | JExprC e0 ->
+       (match e0 with
+        | JEmpty ->
+          let o = [] in
+          let (r', s0) = lower_children_with e rec0 r s in ((app o r'), s0)
+        | _ ->
+          let o = (Elem (false, e0)) :: [] in
+          let s0 = mark_dynamic e e0 s in
+          let (r', s1) = lower_children_with e rec0 r s0 in ((app o r'), s1))
+     | JText (v, _) ->
+       let (t, s0) = transform_jsx_text v s in
+       let o = match t with
                | Some t0 -> (Elem (false, t0)) :: []
                | None -> []
-             in
-             let (r', s2) = lower_children r s1 in ((app o0 r'), s2)
-           | JSpreadChild e0 ->
-             let o0 = (Elem (true, e0)) :: [] in
-             let s1 = mark_dynamic e e0 s0 in
-             let (r', s2) = lower_children r s1 in ((app o0 r'), s2)
-           | _ ->
-             let o0 = [] in
-             let (r', s1) = lower_children r s0 in ((app o0 r'), s1))
-      in lower_children
+       in
+       let (r', s1) = lower_children_with e rec0 r s0 in ((app o r'), s1)
+     | JSpreadChild e0 ->
+       let o = (Elem (true, e0)) :: [] in
+       let s0 = mark_dynamic e e0 s in
+       let (r', s1) = lower_children_with e rec0 r s0 in ((app o r'), s1)
+     | _ ->
+       let o = [] in
+       let (r', s0) = lower_children_with e rec0 r s in ((app o r'), s0))
+
+(** val lower_attr_values_with :
+    (node -> st -> node * st) -> node list -> st -> node list * st **)
+
+let rec lower_attr_values_with rec0 l s =
+  match l with
+  | [] -> ([], s)
+  | a :: r ->
+    (match a with
+     | JAttr (nm, v) ->
+       (match v with
+        | JsxE (_, _, _, _, _, _) ->
+          if is_directive a
+          then let (r', s0) = lower_attr_values_with rec0 r s in
+               ((a :: r'), s0)
+          else let (x, s0) = rec0 v s in
+               let a' = JAttr (nm, (JExprC x)) in
+               let (r', s1) = lower_attr_values_with rec0 r s0 in
+               ((a' :: r'), s1)
+        | JsxF _ ->
+          if is_directive a
+          then let (r', s0) = lower_attr_values_with rec0 r s in
+               ((a :: r'), s0)
+          else let (x, s0) = rec0 v s in
+               let a' = JAttr (nm, (JExprC x)) in
+               let (r', s1) = lower_attr_values_with rec0 r s0 in
+               ((a' :: r'), s1)
+        | _ ->
+          let (r', s0) = lower_attr_values_with rec0 r s in ((a :: r'), s0))
+     | _ -> let (r', s0) = lower_attr_values_with rec0 r s in ((a :: r'), s0))
+
+(** val vnode_hints : env -> attrs_result -> node list **)
+
+let vnode_hints e =
+  let o = e.e_opts in
+  (fun ar ->
+  if o.o_optimize
+  then app (if N.eqb ar.r_flags N0 then [] else (mk_num ar.r_flags) :: [])
+         (match ar.r_dyn with
+          | Some d ->
+            (match d with
+             | [] -> []
+             | _ :: _ ->
+               (Arr (map (fun p -> Elem (false, (mk_str p))) d)) :: [])
+          | None -> [])
+  else [])
+
+(** val push_slot_flag : env -> st -> st **)
+
+let push_slot_flag e =
+  let o = e.e_opts in
+  (fun s ->
+  if o.o_optimize
+  then set_slot_stack (app s.slot_stack (false :: [])) s
+  else s)
+
+(** val lower_el : env -> node -> st -> node * st **)
+
+let rec lower_el e n s =
+  match n with
+  | JsxE (name, attrs0, _, _, children, _) ->
+    let s0 = push_slot_flag e s in
+    let is_comp = is_component e name in
+    let (attrs, s1) = lower_attr_values_with (lower_el e) attrs0 s0 in
+    let ar = transform_attrs e attrs is_comp s1 in
+    let (tag, s2) = transform_tag e name ar.r_st in
+    let (elems, s3) = lower_children_with e (lower_el e) children s2 in
+    let (ch, s4) = finish_children e elems is_comp ar.r_slots s3 in
+    let (callee, s5) = get_pragma e s4 in
+    let call =
+      mk_call callee
+        (app (tag :: (ar.r_attrs :: (ch :: []))) (vnode_hints e ar))
     in
-    let lower_attr_values =
-      let rec lower_attr_values l s0 =
-        match l with
-        | [] -> ([], s0)
-        | a :: r ->
-          (match a with
-           | NScalar _ ->
-             let (r', s1) = lower_attr_values r s0 in ((a :: r'), s1)
-           | NArr _ ->
-             let (r', s1) = lower_attr_values r s0 in ((a :: r'), s1)
-           | NObj _ ->
-             let (r', s1) = lower_attr_values r s0 in ((a :: r'), s1)
-           | Field (_, _) ->
-             let (r', s1) = lower_attr_values r s0 in ((a :: r'), s1)
-           | Ident (_, _, _) ->
-             let (r', s1) = lower_attr_values r s0 in ((a :: r'), s1)
-           | BIdent (_, _, _, _) ->
-             let (r', s1) = lower_attr_values r s0 in ((a :: r'), s1)
-           | IdName _ ->
-             let (r', s1) = lower_attr_values r s0 in ((a :: r'), s1)
-           | Str (_, _) ->
-             let (r', s1) = lower_attr_values r s0 in ((a :: r'), s1)
-           | Num (_, _) ->
-             let (r', s1) = lower_attr_values r s0 in ((a :: r'), s1)
-           | Bool _ ->
-             let (r', s1) = lower_attr_values r s0 in ((a :: r'), s1)
-           | Null -> let (r', s1) = lower_attr_values r s0 in ((a :: r'), s1)
-           | Arr _ -> let (r', s1) = lower_attr_values r s0 in ((a :: r'), s1)
-           | Elem (_, _) ->
-             let (r', s1) = lower_attr_values r s0 in ((a :: r'), s1)
-           | Hole -> let (r', s1) = lower_attr_values r s0 in ((a :: r'), s1)
-           | Obj _ -> let (r', s1) = lower_attr_values r s0 in ((a :: r'), s1)
-           | KV (_, _) ->
-             let (r', s1) = lower_attr_values r s0 in ((a :: r'), s1)
-           | Computed _ ->
-             let (r', s1) = lower_attr_values r s0 in ((a :: r'), s1)
-           | Spread _ ->
-             let (r', s1) = lower_attr_values r s0 in ((a :: r'), s1)
-           | Call (_, _, _, _, _) ->
-             let (r', s1) = lower_attr_values r s0 in ((a :: r'), s1)
-           | Arrow (_, _, _, _, _, _, _) ->
-             let (r', s1) = lower_attr_values r s0 in ((a :: r'), s1)
-           | Assign (_, _, _) ->
-             let (r', s1) = lower_attr_values r s0 in ((a :: r'), s1)
-           | Paren _ ->
-             let (r', s1) = lower_attr_values r s0 in ((a :: r'), s1)
-           | Cond (_, _, _) ->
-             let (r', s1) = lower_attr_values r s0 in ((a :: r'), s1)
-           | Bin (_, _, _) ->
-             let (r', s1) = lower_attr_values r s0 in ((a :: r'), s1)
-           | Unary (_, _) ->
-             let (r', s1) = lower_attr_values r s0 in ((a :: r'), s1)
-           | Member (_, _) ->
-             let (r', s1) = lower_attr_values r s0 in ((a :: r'), s1)
-           | Block (_, _) ->
-             let (r', s1) = lower_attr_values r s0 in ((a :: r'), s1)
-           | JsxE (_, _, _, _, _, _) ->
-             let (r', s1) = lower_attr_values r s0 in ((a :: r'), s1)
-           | JsxF _ ->
-             let (r', s1) = lower_attr_values r s0 in ((a :: r'), s1)
-           | JAttr (nm, v) ->
-             (match v with
-              | NScalar _ ->
-                let (r', s1) = lower_attr_values r s0 in ((a :: r'), s1)
-              | NArr _ ->
-                let (r', s1) = lower_attr_values r s0 in ((a :: r'), s1)
-              | NObj _ ->
-                let (r', s1) = lower_attr_values r s0 in ((a :: r'), s1)
-              | Field (_, _) ->
-                let (r', s1) = lower_attr_values r s0 in ((a :: r'), s1)
-              | Ident (_, _, _) ->
-                let (r', s1) = lower_attr_values r s0 in ((a :: r'), s1)
-              | BIdent (_, _, _, _) ->
-                let (r', s1) = lower_attr_values r s0 in ((a :: r'), s1)
-              | IdName _ ->
-                let (r', s1) = lower_attr_values r s0 in ((a :: r'), s1)
-              | Str (_, _) ->
-                let (r', s1) = lower_attr_values r s0 in ((a :: r'), s1)
-              | Num (_, _) ->
-                let (r', s1) = lower_attr_values r s0 in ((a :: r'), s1)
-              | Bool _ ->
-                let (r', s1) = lower_attr_values r s0 in ((a :: r'), s1)
-              | Null ->
-                let (r', s1) = lower_attr_values r s0 in ((a :: r'), s1)
-              | Arr _ ->
-                let (r', s1) = lower_attr_values r s0 in ((a :: r'), s1)
-              | Elem (_, _) ->
-                let (r', s1) = lower_attr_values r s0 in ((a :: r'), s1)
-              | Hole ->
-                let (r', s1) = lower_attr_values r s0 in ((a :: r'), s1)
-              | Obj _ ->
-                let (r', s1) = lower_attr_values r s0 in ((a :: r'), s1)
-              | KV (_, _) ->
-                let (r', s1) = lower_attr_values r s0 in ((a :: r'), s1)
-              | Computed _ ->
-                let (r', s1) = lower_attr_values r s0 in ((a :: r'), s1)
-              | Spread _ ->
-                let (r', s1) = lower_attr_values r s0 in ((a :: r'), s1)
-              | Call (_, _, _, _, _) ->
-                let (r', s1) = lower_attr_values r s0 in ((a :: r'), s1)
-              | Arrow (_, _, _, _, _, _, _) ->
-                let (r', s1) = lower_attr_values r s0 in ((a :: r'), s1)
-              | Assign (_, _, _) ->
-                let (r', s1) = lower_attr_values r s0 in ((a :: r'), s1)
-              | Paren _ ->
-                let (r', s1) = lower_attr_values r s0 in ((a :: r'), s1)
-              | Cond (_, _, _) ->
-                let (r', s1) = lower_attr_values r s0 in ((a :: r'), s1)
-              | Bin (_, _, _) ->
-                let (r', s1) = lower_attr_values r s0 in ((a :: r'), s1)
-              | Unary (_, _) ->
-                let (r', s1) = lower_attr_values r s0 in ((a :: r'), s1)
-              | Member (_, _) ->
-                let (r', s1) = lower_attr_values r s0 in ((a :: r'), s1)
-              | Block (_, _) ->
-                let (r', s1) = lower_attr_values r s0 in ((a :: r'), s1)
-              | JsxE (_, _, _, _, _, _) ->
-                if is_directive a
-                then let (r', s1) = lower_attr_values r s0 in ((a :: r'), s1)
-                else let (x, s1) = lower_el0 v s0 in
-                     let a' = JAttr (nm, (JExprC x)) in
-                     let (r', s2) = lower_attr_values r s1 in ((a' :: r'), s2)
-              | JsxF _ ->
-                if is_directive a
-                then let (r', s1) = lower_attr_values r s0 in ((a :: r'), s1)
-                else let (x, s1) = lower_el0 v s0 in
-                     let a' = JAttr (nm, (JExprC x)) in
-                     let (r', s2) = lower_attr_values r s1 in ((a' :: r'), s2)
-              | _ -> let (r', s1) = lower_attr_values r s0 in ((a :: r'), s1))
-           | _ -> let (r', s1) = lower_attr_values r s0 in ((a :: r'), s1))
-      in lower_attr_values
-    in
-    (match n with
-     | JsxE (name, attrs0, _, _, children, _) ->
-       let s0 =
-         if o.o_optimize
-         then set_slot_stack (app s.slot_stack (false :: [])) s
-         else s
-       in
-       let is_comp = is_component e name in
-       let (attrs, s1) = lower_attr_values attrs0 s0 in
-       let ar = transform_attrs e attrs is_comp s1 in
-       let (tag, s2) = transform_tag e name ar.r_st in
-       let (elems, s3) = lower_children children s2 in
-       let (ch, s4) = finish_children e elems is_comp ar.r_slots s3 in
-       let hints =
-         if o.o_optimize
-         then app
-                (if N.eqb ar.r_flags N0 then [] else (mk_num ar.r_flags) :: [])
-                (match ar.r_dyn with
-                 | Some d ->
-                   (match d with
-                    | [] -> []
-                    | _ :: _ ->
-                      (Arr (map (fun p -> Elem (false, (mk_str p))) d)) :: [])
-                 | None -> [])
-         else []
-       in
-       let (callee, s5) = get_pragma e s4 in
-       let call =
-         mk_call callee (app (tag :: (ar.r_attrs :: (ch :: []))) hints)
-       in
-       (match ar.r_dirs with
-        | [] -> (call, s5)
-        | d :: l ->
-          let (wd, s6) =
-            import_from_vue (String ((Ascii (true, true, true, false, true,
-              true, true, false)), (String ((Ascii (true, false, false, true,
-              false, true, true, false)), (String ((Ascii (false, false,
-              true, false, true, true, true, false)), (String ((Ascii (false,
-              false, false, true, false, true, true, false)), (String ((Ascii
-              (false, false, true, false, false, false, true, false)),
-              (String ((Ascii (true, false, false, true, false, true, true,
-              false)), (String ((Ascii (false, true, false, false, true,
-              true, true, false)), (String ((Ascii (true, false, true, false,
-              false, true, true, false)), (String ((Ascii (true, true, false,
-              false, false, true, true, false)), (String ((Ascii (false,
-              false, true, false, true, true, true, false)), (String ((Ascii
-              (true, false, false, true, false, true, true, false)), (String
-              ((Ascii (false, true, true, false, true, true, true, false)),
-              (String ((Ascii (true, false, true, false, false, true, true,
-              false)), (String ((Ascii (true, true, false, false, true, true,
-              true, false)), EmptyString)))))))))))))))))))))))))))) s5
-          in
-          let (ds, s7) = build_directives (d :: l) name attrs s6 in
-          ((mk_call wd (call :: ((Arr ds) :: []))), s7))
-     | JsxF children ->
-       let s0 =
-         if o.o_optimize
-         then set_slot_stack (app s.slot_stack (false :: [])) s
-         else s
-       in
-       let (callee, s1) = get_pragma e s0 in
-       let (frag, s2) =
-         import_from_vue (String ((Ascii (false, true, true, false, false,
-           false, true, false)), (String ((Ascii (false, true, false, false,
-           true, true, true, false)), (String ((Ascii (true, false, false,
-           false, false, true, true, false)), (String ((Ascii (true, true,
+    (match ar.r_dirs with
+     | [] -> (call, s5)
+     | d :: l ->
+       let (wd, s6) =
+         import_from_vue (String ((Ascii (true, true, true, false, true,
+           true, true, false)), (String ((Ascii (true, false, false, true,
+           false, true, true, false)), (String ((Ascii (false, false, true,
+           false, true, true, true, false)), (String ((Ascii (false, false,
+           false, true, false, true, true, false)), (String ((Ascii (false,
+           false, true, false, false, false, true, false)), (String ((Ascii
+           (true, false, false, true, false, true, true, false)), (String
+           ((Ascii (false, true, false, false, true, true, true, false)),
+           (String ((Ascii (true, false, true, false, false, true, true,
+           false)), (String ((Ascii (true, true, false, false, false, true,
+           true, false)), (String ((Ascii (false, false, true, false, true,
+           true, true, false)), (String ((Ascii (true, false, false, true,
+           false, true, true, false)), (String ((Ascii (false, true, true,
+           false, true, true, true, false)), (String ((Ascii (true, false,
            true, false, false, true, true, false)), (String ((Ascii (true,
-           false, true, true, false, true, true, false)), (String ((Ascii
-           (true, false, true, false, false, true, true, false)), (String
-           ((Ascii (false, true, true, true, false, true, true, false)),
-           (String ((Ascii (false, false, true, false, true, true, true,
-           false)), EmptyString)))))))))))))))) s1
+           true, false, false, true, true, true, false)),
+           EmptyString)))))))))))))))))))))))))))) s5
        in
-       let (elems, s3) = lower_children children s2 in
-       let (ch, s4) = finish_children e elems false None s3 in
-       ((mk_call callee (frag :: (Null :: (ch :: [])))), s4)
-     | _ -> (n, s))
-  in lower_el0
+       let (ds, s7) = build_directives (d :: l) name attrs s6 in
+       ((mk_call wd (call :: ((Arr ds) :: []))), s7))
+  | JsxF children ->
+    let s0 = push_slot_flag e s in
+    let (callee, s1) = get_pragma e s0 in
+    let (frag, s2) =
+      import_from_vue (String ((Ascii (false, true, true, false, false,
+        false, true, false)), (String ((Ascii (false, true, false, false,
+        true, true, true, false)), (String ((Ascii (true, false, false,
+        false, false, true, true, false)), (String ((Ascii (true, true, true,
+        false, false, true, true, false)), (String ((Ascii (true, false,
+        true, true, false, true, true, false)), (String ((Ascii (true, false,
+        true, false, false, true, true, false)), (String ((Ascii (false,
+        true, true, true, false, true, true, false)), (String ((Ascii (false,
+        false, true, false, true, true, true, false)),
+        EmptyString)))))))))))))))) s1
+    in
+    let (elems, s3) = lower_children_with e (lower_el e) children s2 in
+    let (ch, s4) = finish_children e elems false None s3 in
+    ((mk_call callee (frag :: (Null :: (ch :: [])))), s4)
+  | _ -> (n, s)
